@@ -44,6 +44,7 @@ type verifExecEnv struct {
 	ordered  bool // every batch in order of addition
 	bounded  bool // every batch within its bound
 	known    bool // every executed task was added
+	per      int  // >0: ids are dealt out per adder in blocks of this size; order is checked per adder
 }
 
 // execute is the callback of the executor under test (runs on the flusher or
@@ -53,6 +54,7 @@ func (e *verifExecEnv) execute(tasks []any) {
 	defer e.mu.Unlock()
 	e.batches++
 	prev, total, last := -1, 0, 0
+	prevBy := map[int]int{}
 	for _, t := range tasks {
 		id, ok := t.(int)
 		if !ok || id < 0 || id >= len(e.count) {
@@ -60,7 +62,12 @@ func (e *verifExecEnv) execute(tasks []any) {
 			continue
 		}
 		e.count[id]++
-		if id <= prev {
+		if e.per > 0 {
+			if p, ok := prevBy[id/e.per]; ok && id <= p {
+				e.ordered = false
+			}
+			prevBy[id/e.per] = id
+		} else if id <= prev {
 			e.ordered = false
 		}
 		prev = id
@@ -142,15 +149,15 @@ func (e *verifExecEnv) check(what string) {
 }
 
 func Verif_C16_history() {
-	c := verifCase(10)
-	e := verifNewExecEnv(c / 5)
+	c := verifCase(12)
+	e := verifNewExecEnv(c / 6)
 	steps := verifParam("steps")
 	verifClock = 1000 * verifInterval
 	retired := false
 	for i := 0; i < steps; i++ {
-		op := c % 5
+		op := c % 6
 		if i > 0 {
-			op = verifChoose("op", 5)
+			op = verifChoose("op", 6)
 		}
 		switch op {
 		case 0: // Add
@@ -162,6 +169,21 @@ func Verif_C16_history() {
 			verifYield() // the flusher (re)starts and takes over a full batch
 			verifAssert(e.alive(), "a flusher is running after Add")
 			if retired {
+				verifReach("restarted")
+				retired = false
+			}
+		case 5: // Add directly followed by Wait
+			id := len(e.count)
+			e.mu.Lock()
+			e.count = append(e.count, 0)
+			e.mu.Unlock()
+			e.add(id)
+			e.pe.Wait()
+			all, _ := e.executed()
+			verifAssert(all, "Wait returns only after every task added before has been executed")
+			verifYield()
+			if retired {
+				verifAssert(e.alive(), "a flusher is running after Add")
 				verifReach("restarted")
 				retired = false
 			}
@@ -258,4 +280,42 @@ func verifNewExecEnvN(maxTasks int) *verifExecEnv {
 		return e.tk
 	}
 	return e
+}
+
+// H16d: two adder goroutines (each adds its tasks in order) while a tick is
+// being delivered; then Wait. Under "sched_fork" the three goroutines are
+// interleaved at their synchronisation operations.
+func Verif_C16_two_adders() {
+	c := verifCase(4)
+	e := verifNewExecEnvN(c%2 + 1)
+	per := c/2 + 1 // tasks per adder
+	e.per = per
+	e.count = make([]int, 2*per)
+	verifClock = 1000 * verifInterval
+	var wg sync.WaitGroup
+	adder := func(k int) {
+		defer wg.Done()
+		for i := 0; i < per; i++ {
+			e.add(k*per + i)
+		}
+	}
+	wg.Add(2)
+	go adder(0)
+	go adder(1)
+	if verifChoose("tickDuring", 2) == 1 {
+		verifYield() // a flusher is running by now
+		if e.alive() {
+			verifClock += verifInterval
+			e.tk.c <- time.Time{}
+		}
+	}
+	wg.Wait()
+	verifYield()
+	e.check("adders done")
+	e.pe.Wait()
+	all, dup := e.executed()
+	verifAssert(all && !dup, "every task of every adder is executed exactly once")
+	verifYield()
+	e.check("end")
+	verifReach("done")
 }
